@@ -46,8 +46,9 @@ def one_writer(ctx, r):
                     continue
                 view, prob = reader_view(c)
                 sh = None
-                ctx.count(1, key=(label, strace.summarize(steps[:k])[-1] if steps[:k] else "-", k))
-                step = {"argv": argv, "stdin": None if stdin is None else stdin.decode(), "env": env, "parked_after_call": k, "calls_run": strace.summarize(steps[:k])}
+                ran = strace.summarize(pk.steps_at_park)       # the writer's own trace: where it really is (see sched.Parked)
+                ctx.count(1, key=(label, ran[-1] if ran else "-", len(ran)))
+                step = {"argv": argv, "stdin": None if stdin is None else stdin.decode(), "env": env, "parked_after_call": len(pk.steps_at_park), "calls_run": ran}
                 if prob:
                     ctx.violation("C13 reader fails while %s is in progress" % label, "writer parked after call %d (%s): %s" % (k, step["calls_run"][-1:], prob), {"trace": trace + [step]})
                     return
